@@ -1,5 +1,6 @@
-//! vcheck-c20-min — the ContractWrapper half of property C20 on a build of cw-multi-test with its DEFAULT
-//! feature set (no staking / stargate / cosmwasm_1_x). Started by vcheck-c20; prints one JSON document:
+//! vcheck-c20-min — the ContractWrapper half of property C20 on builds of cw-multi-test with its DEFAULT
+//! feature set (no staking / stargate / cosmwasm_1_x) and with other reduced feature sets (this crate's features map
+//! one-to-one onto cw-multi-test's). Started by vcheck-c20; prints one JSON document:
 //! {"chains": n, "slots_checked": n, "violations": [[signature, detail, chain], ...]}.
 
 use cosmwasm_std::testing::{mock_dependencies, mock_env};
@@ -38,7 +39,7 @@ impl Rt {
 fn rich(name: &str) -> Response {
     let mut sub = SubMsg::reply_always(BankMsg::Send { to_address: "to".into(), amount: vec![coin(3, "ua"), coin(0, "ub")] }, 7).with_gas_limit(12_345).with_payload(Binary::from(b"payload".to_vec()));
     sub.reply_on = ReplyOn::Always;
-    Response::new()
+    let r = Response::new()
         .add_attribute("entry", name)
         .add_attribute("second", "")
         .add_event(Event::new("ev").add_attribute("k", "v"))
@@ -46,7 +47,21 @@ fn rich(name: &str) -> Response {
         .add_submessage(sub)
         .add_submessage(SubMsg::reply_on_error(WasmMsg::Execute { contract_addr: "c".into(), msg: Binary::from(b"{}".to_vec()), funds: vec![coin(1, "ua")] }, u64::MAX).with_gas_limit(1))
         .add_message(BankMsg::Burn { amount: vec![coin(2, "ub")] })
-        .add_message(WasmMsg::ClearAdmin { contract_addr: "x".into() })
+        .add_message(WasmMsg::ClearAdmin { contract_addr: "x".into() });
+    // the message kinds that exist only with some features of the build
+    #[cfg(feature = "staking")]
+    let r = r
+        .add_message(cosmwasm_std::StakingMsg::Delegate { validator: "val".into(), amount: coin(5, "ustake") })
+        .add_submessage(SubMsg::reply_on_success(cosmwasm_std::DistributionMsg::WithdrawDelegatorReward { validator: "val".into() }, 9));
+    #[cfg(feature = "stargate")]
+    #[allow(deprecated)]
+    let r = r
+        .add_message(cosmwasm_std::IbcMsg::CloseChannel { channel_id: "channel-7".into() })
+        .add_message(cosmwasm_std::GovMsg::Vote { proposal_id: 3, option: cosmwasm_std::VoteOption::Abstain })
+        .add_submessage(SubMsg::reply_always(cosmwasm_std::CosmosMsg::Stargate { type_url: "/t".into(), value: Binary::from(vec![1u8, 2]) }, 10));
+    #[cfg(feature = "cosmwasm_2_0")]
+    let r = r.add_message(cosmwasm_std::CosmosMsg::Any(cosmwasm_std::AnyMsg { type_url: "/a".into(), value: Binary::from(vec![3u8]) }));
+    r
 }
 
 fn w_execute(_d: DepsMut, _e: Env, _i: MessageInfo, _m: Empty) -> StdResult<Response> {
@@ -154,7 +169,7 @@ fn main() {
                 if g != w {
                     let slot = w.split(':').next().unwrap_or("");
                     let sig = if slot == "checksum" { "wrapper-checksum-lost-in-a-minimal-features-build".to_string() } else if slot == "responses" { "wrapper-alters-the-response-of-an-entry-point".to_string() } else { format!("wrapper-{}-entry-point-lost", slot) };
-                    violations.push(json!([sig, format!("default-features build, chain {:?}: [{}], expected [{}]", steps, g.chars().take(300).collect::<String>(), w), steps]));
+                    violations.push(json!([sig, format!("reduced-features build, chain {:?}: [{}], expected [{}]", steps, g.chars().take(300).collect::<String>(), w), steps]));
                 }
             }
         }
